@@ -281,6 +281,21 @@ func zipLeaves(a, b Value, f func(x, y Sc) Sc) (Value, bool) {
 		if x.Nil && y.Nil {
 			return x, true
 		}
+		if x.Nil != y.Nil && (x.Len.S == lit(64, 0).S && y.Len.S == lit(64, 0).S) {
+			// nil and empty slices are interchangeable for everything the subset can observe
+			z := x
+			if x.Nil {
+				z = y
+			}
+			z.Cap = f(Sc{T: x.Cap}, Sc{T: y.Cap}).T
+			return z, true
+		}
+		if !x.Nil && !y.Nil && x.Obj != y.Obj && x.Len.S == lit(64, 0).S && y.Len.S == lit(64, 0).S {
+			// two empty slices over different backing arrays: no element is observable; keep one
+			z := x
+			z.Cap = f(Sc{T: x.Cap}, Sc{T: y.Cap}).T
+			return z, true
+		}
 		if x.Nil != y.Nil || x.Obj != y.Obj || len(x.Path) != len(y.Path) {
 			return nil, false
 		}
